@@ -161,6 +161,16 @@ partial def specOfJson (j : Json) : Except String GSpec := do
     let gid ← j.getObjValAs? Nat "gid"
     let g ← specOfJson (← j.getObjVal? "g")
     return GSpec.nested gid g
+  else if k == "fold_group" then
+    let oid ← j.getObjValAs? Nat "oid"
+    let kind ← (match (← j.getObjValAs? String "fold") with
+      | "sum" => pure FoldKind.sum
+      | "flatten" => pure FoldKind.flatten
+      | "merge" => pure FoldKind.merge
+      | x => throw s!"bad fold kind {x}")
+    let gid ← j.getObjValAs? Nat "gid"
+    let g ← specOfJson (← j.getObjVal? "g")
+    return GSpec.foldG oid kind gid g
   else if k == "group_obj" then
     -- the spec object of this evaluation IS the Group object `gid` that also occurs nested in
     -- another spec of the history: Group(g) itself, not wrapped again
@@ -191,6 +201,7 @@ def specTag : GSpec → String
   | .fn _ => "f"
   | .limit _ _ sub => "Limit(" ++ specTag sub ++ ")"
   | .nested _ g => "Group(" ++ specTag g ++ ")"
+  | .foldG _ _ _ g => "Fold(Group(" ++ specTag g ++ "))"
 
 /-- Max / Min over lists or tuples: Python compares them lexicographically, the model's
     `pyLt` covers numbers and strings only -/
@@ -199,6 +210,7 @@ def cmpUnsupported : GSpec → List V → Bool
   | .dict _ _ _ sub, its => cmpUnsupported sub its
   | .limit _ _ sub, its => cmpUnsupported sub its
   | .nested _ g, its => its.any (fun x => cmpUnsupported g ((iterOf x).getD []))
+  | .foldG _ _ _ g, its => its.any (fun x => cmpUnsupported g ((iterOf x).getD []))
   | _, _ => false
 
 /-- hashable in Python: no list / dict inside -/
@@ -216,6 +228,7 @@ def keyUnsupported : GSpec → List V → Bool
     its.any (fun x => pyHashable (key.val x) && !(hashable (key.val x))) || keyUnsupported sub its
   | .limit _ _ sub, its => keyUnsupported sub its
   | .nested _ g, its => its.any (fun x => keyUnsupported g ((iterOf x).getD []))
+  | .foldG _ _ _ g, its => its.any (fun x => keyUnsupported g ((iterOf x).getD []))
   | _, _ => false
 
 /-- which classes of the generator a spec uses (for the histogram) -/
@@ -230,6 +243,7 @@ def specFeat : GSpec → String
   | .agg _ .clsLast | .agg _ .clsCount | .agg _ .unbound => "C"
   | .limit _ _ sub => specFeat sub
   | .nested _ g => specFeat g
+  | .foldG _ _ _ g => specFeat g
   | _ => ""
 
 def hasFloat : V → Bool
